@@ -2,7 +2,7 @@ SPECIFICATION Spec
 CONSTANTS
   MaxConn = 5
   MaxSubs = 4
-  DecideAtStart = TRUE
+  DecideAtStart = TRUE OnlyClear = FALSE
 INVARIANT ExactlyTheOwedReports
 INVARIANT FlagFollowsGhost
 CHECK_DEADLOCK FALSE
